@@ -1,10 +1,12 @@
 use crate::Prop;
 pub mod c01;
+pub mod c03;
 pub mod c08;
 
 pub fn lookup(id: &str) -> Option<&'static dyn Prop> {
     match id {
         "C01" => Some(&c01::C01),
+        "C03" => Some(&c03::C03),
         "C08" => Some(&c08::C08),
         _ => None,
     }
